@@ -26,7 +26,8 @@ func (Driver) Info() core.Info {
 		Rule: "case = (function object from the registry of every exported stdlib function variable + MakeToFunc for 12 target types, argument list): length = fixed parameters + 0..4 variadic arguments; " +
 			"each argument generated from its parameter's type constraint with dynamic constraints instantiated by arbitrary types (biased to the kinds the function mentions), " +
 			"as a known value (hostile scalars: negative, fractional, huge, +-Inf, -0; format strings from the verb grammar; regexes; JSON/CSV/timestamps with mutations), a typed null, a null of dynamic type, " +
-			"a typed (possibly refined) unknown, DynamicVal, with nulls/unknowns/dynamically typed members injected at nested positions and marks at top level or depth; plus a fixed corpus of boundary witnesses. " +
+			"a typed (possibly refined) unknown, DynamicVal, with nulls/unknowns/dynamically typed members injected at nested positions and marks at top level or depth; plus a fixed corpus of boundary witnesses; plus chained calls (chain.go): 3-6 calls of sequence/collection functions in which a result, or an unknown placeholder of the type predicted for it, is an argument of a later call, " +
+			"with all types and values in play compared after every call with what they were when handed out and earlier results re-checked against their predictions. " +
 			"Each case executes Call(args), ReturnTypeForValues(args) and ReturnType(types of args) under recover in a worker limited to 4 GiB of address space. " +
 			"Stated bounds: size-like numbers (indent spaces) are clamped to |n| <= 65536, printf widths/precisions to 3 digits, collections to 3 members (variadic lists to 4). " +
 			"distinct = hash of (function, printable arguments); non-trivial = Call returned a value, so the conformance clauses were decided on it",
@@ -94,6 +95,7 @@ func (Driver) Run(c *core.Ctx) {
 		}
 		checkCase(c, i, d, al.vals)
 	}
+	runChains(c, 500_000_000)
 }
 
 func runCompleteness(c *core.Ctx) {
@@ -260,7 +262,17 @@ func panicErrorOf(err error) (string, bool) {
 	return "", false
 }
 
-func checkCase(c *core.Ctx, idx int64, d *fnDef, args []cty.Value) {
+// caseOut is what one checked case observed; chain.go builds the next calls of a history from it.
+type caseOut struct {
+	got    cty.Value // result of Call (valid when callOK)
+	callOK bool
+	tv     cty.Type // ReturnTypeForValues (valid when rtvOK)
+	rtvOK  bool
+	tt     cty.Type // ReturnType of the argument types (valid when rtOK)
+	rtOK   bool
+}
+
+func checkCase(c *core.Ctx, idx int64, d *fnDef, args []cty.Value) (out caseOut) {
 	site := "stdlib." + d.name
 	desc := func() string { return d.name + "(" + fmtArgs(args) + ")" }
 	c.Begin(idx, desc)
@@ -375,6 +387,7 @@ func checkCase(c *core.Ctx, idx int64, d *fnDef, args []cty.Value) {
 		c.Count("outcome-rt:type")
 	}
 
+	out = caseOut{got: got, callOK: callOK, tv: tv, rtvOK: !ov.Panicked && errv == nil, tt: tt, rtOK: rtOK}
 	if !callOK {
 		return
 	}
@@ -415,6 +428,7 @@ func checkCase(c *core.Ctx, idx int64, d *fnDef, args []cty.Value) {
 	if c.WantSample() && idx%97 == 0 {
 		c.Sample(map[string]any{"call": witness, "result": show(got), "ReturnTypeForValues": fmt.Sprintf("%#v", tv), "ReturnType": fmt.Sprintf("%#v / %v", tt, errt)})
 	}
+	return
 }
 
 // pclass is core.PanicClass with a parenthesised tail (which embeds types) cut off.
